@@ -559,6 +559,55 @@ func streamConc(c *ctx) {
 					}
 				}
 			})
+			// lists of six entries shared by all goroutines: lookups of every kid, whole COSE_Sign messages verified and
+			// produced with them; the lists are the same afterwards (order and entries)
+			var ks6 []key.Key
+			var vl key.Verifiers
+			var sl key.Signers
+			for j := 0; j < 6; j++ {
+				kk, err := genKeyFor(-8)
+				if err != nil {
+					continue
+				}
+				kk[iana.KeyParameterKid] = []byte{byte('a' + j)}
+				sj, e1 := kk.Signer()
+				vj, e2 := kk.Verifier()
+				if e1 != nil || e2 != nil {
+					continue
+				}
+				ks6, vl, sl = append(ks6, kk), append(vl, vj), append(sl, sj)
+			}
+			if len(vl) == 6 {
+				order := func() string {
+					o := ""
+					for j := range vl {
+						o += string(vl[j].Key().Kid()) + string(sl[j].Key().Kid())
+					}
+					return o
+				}
+				before := order()
+				ref, rerr := (&cose.SignMessage[[]byte]{Payload: []byte("p")}).SignAndEncode(sl, nil)
+				par("six shared verifiers / signers", func(g, i int) {
+					j := (g + i) % 6
+					if v := vl.Lookup(ks6[j].Kid()); v == nil || !bytes.Equal(v.Key().Kid(), ks6[j].Kid()) {
+						fail("conc", "lookup in a shared list of six verifiers returned another entry or none", fmt.Sprintf("kid %q", ks6[j].Kid()), "wrong entry", "the entry with that kid")
+					}
+					if sg := sl.Lookup(ks6[j].Kid()); sg == nil || !bytes.Equal(sg.Key().Kid(), ks6[j].Kid()) {
+						fail("conc", "lookup in a shared list of six signers returned another entry or none", fmt.Sprintf("kid %q", ks6[j].Kid()), "wrong entry", "the entry with that kid")
+					}
+					if i%10 == 0 && rerr == nil {
+						if _, err := cose.VerifySignMessage[[]byte](vl, ref, nil); err != nil {
+							fail("conc", "a COSE_Sign message does not verify with a shared list of verifiers", "six signers", err, "valid")
+						}
+						if out, err := (&cose.SignMessage[[]byte]{Payload: []byte("p")}).SignAndEncode(sl, nil); err != nil || !bytes.Equal(out, ref) {
+							fail("conc", "a deterministic COSE_Sign message produced with a shared list of signers differs from the one produced alone", "six signers", err, "identical bytes")
+						}
+					}
+				})
+				if order() != before {
+					fail("conc", "using shared lists of verifiers / signers changed the lists", before, order(), "unchanged")
+				}
+			}
 			vs := key.Verifiers{vr}
 			par("Verifiers.Lookup", func(g, i int) {
 				if vs.Lookup(k.Kid()) == nil || len(vs.KeySet()) != 1 {
